@@ -17,6 +17,7 @@ EXPLANATION = (
     "comparison or container sized from the same field). R06.5: char/type tag scorer twins (T6). R06.6: on every path of "
     "predict_tags the stored tag scores are cleared and, when score storing is on, resized to len()."
 )
+THOROUGH_CONFIGS = [C.NO_CHARWISE, C.NO_FIX]
 NOT_DECIDED = ["numeric sums of tag scores", "suffix-merged tag weights (merge arithmetic)"]
 
 TP = "vaporetto::predictor::TagPredictor::predict"
@@ -25,14 +26,14 @@ TAGSCORERS = [("vaporetto::char_scorer::boundary_tag_scorer::CharScorerBoundaryT
 
 
 def run(chk):
-    w = facts.world("W")
-    chk.configs.add("W")
+    w = C.world_for(chk)
     for rid, txt in (("R06.1", "argmax: strict comparison, first index wins ties, slice-relative index"), ("R06.2", "score-slot consumption agrees in predictor, accessor and trainer"),
                      ("R06.3", "automaton state vectors prepared before use; predict_tags call shape"), ("R06.4", "model-derived index sanitised"),
                      ("R06.5", "char/type tag scorer twins"), ("R06.6", "tag score storage prepared on every path")):
         chk.rule(rid, txt)
     r061(chk, w)
-    r062(chk, w)
+    if chk.config == "W" or w.body("vaporetto::tag_trainer::TagTrainer::train_tag") is not None:
+        r062(chk, w)
     r063(chk, w)
     r064(chk, w)
     r066(chk, w)
